@@ -625,6 +625,13 @@ class Walker:
         exp = max([cv.end for cv in post.ch.values()] or [0])
         if tot != exp:
             ctx.fail(C, "get_duration()", f"{tot} != max over channels {exp}")
+        if post.ch:
+            # with the pending fall time: the maximum over channels of each channel's own value
+            per = {n: seq.get_duration(n, include_fall_time=True) for n in post.ch}
+            totf = self.ctx.must(lambda: seq.get_duration(include_fall_time=True), C, "get_duration(fall)")
+            if totf != max(per.values()):
+                ctx.fail(C, "get_duration(fall)",
+                         f"sequence duration with fall time {totf} != max over channels {per}")
         # rounding really acted?
         name = self._op_channel(op)
         if name and name in post.ch and not failed:
@@ -1138,3 +1145,16 @@ class Walker:
         if d:
             ctx.fail(C, f"switch_register:{snap.diff_key(d)}",
                      f"switch_register(identical) differs: {d}", cont=True)
+        # the copy is a sequence of its own: calls made on it are not calls on the original
+        for what, other in (("switch_register", sw),):
+            try:
+                other.declare_variable("pv_probe_var", dtype=float)
+                for ch in list(other.declared_channels)[:2]:
+                    if not other.is_measured():
+                        other.delay(16, ch)
+            except Exception:  # noqa: BLE001 - the copy may refuse; only the original matters
+                pass
+            d = snap.diff(ref, snap.snapshot(seq))
+            if d:
+                ctx.fail(C, f"call_on_copy_changes_original:{what}:{snap.diff_key(d)}",
+                         f"after calls on the {what} copy the original differs: {d}", cont=True)
